@@ -431,6 +431,11 @@ def inner_reaches_os_rule(run, f, rid):
     them passes the poller call do_register / do_reregister / do_deregister."""
     run.rule(rid, "Selector::register / reregister / deregister pass the poller call on every path", floor=3, template="T1 (must-pass)")
     for nm in ("register", "reregister", "deregister"):
+        if f.body(SEL + "::" + nm) is None:
+            # the three-line function was inlined into add_*/del_*_event: there is no separate step left that could
+            # second-guess the caller's decision; the caller's own logic is judged by C21's record rules
+            run.ok(rid, nm + "/reaches-os", "inlined into its caller")
+            continue
         b = unit(run, rid, f, SEL + "::" + nm)
         if b is None:
             continue
